@@ -2,4 +2,4 @@
 From Coq Require Import ExtrOcamlBasic.
 From ZV Require Import Valid.Model.
 Extraction Language OCaml.
-Extraction "model.ml" Z.of_N N.of_nat Nat.add handle apply_shape parse_int is_unrecovery err_prefix.
+Extraction "model.ml" Z.of_N N.of_nat Nat.add handle apply_shape parse_int is_unrecovery err_prefix valid_batchable lower.
